@@ -334,6 +334,12 @@ def main(argv):
 
 
 if __name__ == '__main__':
+    import shutil
+    import tempfile
+    # one scratch directory per invocation; batch workers create their per-process disks underneath it and the
+    # parent removes it whatever happens to them
+    _scratch = tempfile.mkdtemp(prefix='simverif-')
+    os.environ['SIMVERIF_SCRATCH'] = _scratch
     try:
         rc = main(sys.argv[1:])
     except SystemExit:
@@ -343,4 +349,6 @@ if __name__ == '__main__':
         traceback.print_exc()
         print('HARNESS-ERROR: unhandled exception in the runner', flush=True)
         rc = 2
+    finally:
+        shutil.rmtree(_scratch, ignore_errors=True)
     sys.exit(rc)
